@@ -3,7 +3,7 @@
 import json
 P = {
  "C01": ("process monitor (exit status, panic text and stack, per-case CPU clock) over isolated child processes fed hostile, mutated, decorated and generated inputs",
-         "no panic, fatal runtime error or CPU-budget overrun on ~72 k (quick) / ~1.4 M (thorough) logged cases: mutated and decorated generated sets, 42 hazard and revision-layout templates, pathological lexical texts up to the size bound, the repository's own YANG corpus; after every load the entry-level and node-level read API is walked"),
+         "no panic, fatal runtime error or CPU-budget overrun on ~72 k (quick) / ~1.4 M (thorough) logged cases: mutated and decorated generated sets, 42 hazard and revision-layout templates, pathological lexical texts up to the size bound, the repository's own YANG corpus; after every load the entry-level and node-level read API is walked (standalone deviation entries included); two texts nested a million levels deep (recorded finding); a call that blocks (no CPU consumed while a case is open) is a violation like one that burns its CPU budget"),
  "C02": ("reference-model monitor: independent RFC 7950 s.6 reader vs yang.Parse on bounded-exhaustive token-alphabet enumerations and grammar-directed random texts",
          "accept/reject verdict, keywords, argument strings, nesting and order agree on every string up to the length bound over the token alphabets (whole input and four framings; 2.8 M quick, ~100 M thorough, each space covered completely) and on random texts with layout noise"),
  "C03": ("reflection walker pairing every source statement with exactly one AST node by pointer identity + must-reject oracle derived from goyang's own keyword table",
@@ -25,7 +25,7 @@ P = {
  "C11": ("graph-closure reference computed from the generated derivation graph + repetition monitor on the order of Values + pointer identity of identityref bases",
          "20 k (quick) / 400 k (thorough) random DAGs over 1-4 modules and their submodules, equal names and equal prefixes across modules, small import-prefix pool, identityrefs through typedefs, derivation chains of 150-400, cycles and dangling bases on the error side, each loaded 8/24 times in shuffled order"),
  "C12": ("reference-model monitor: config inheritance and namespace / instantiating-module attribution computed from the abstract model, compared on every node",
-         "generated sets combining explicit config with uses, augment (also into choices and absent rpc input/output), include, choice/case, rpc/action/notification across modules"),
+         "30 k / 400 k generated sets combining explicit config (also on key leaves) with uses, augment (also into choices and absent rpc input/output), include, choice/case, rpc/action/notification across modules, namespaces that differ only in case; 1.5 k / 30 k header sets with several revisions of one module (every node of every revision is attributed to the module of that name)"),
  "C13": ("four monitors: revision table under all load orders (with modules.add trace), include-by-revision binding, file chooser over generated directory layouts (with file.read trace), include == inline through canonical dumps",
          "8 k header sets x all load orders (prefix and path lookups after each), include sets x all orders, 6 k directory layouts with near-miss names and symbolic links, 25 k random splits into up to five submodules (quick; x7 thorough)"),
  "C14": ("RFC 7950 9.6.4.2/9.7.4.2 assignment reference in exact arithmetic vs Set/SetNext call sequences and schemas",
